@@ -153,7 +153,9 @@ func undecodableBytesAttr(input []byte, names map[string]bool) bool {
 	found := false
 
 	root.Walk(nil, func(path []string, n *gen.Node) {
-		if len(path) < 2 || path[len(path)-2] != "attributes" || !names[path[len(path)-1]] {
+		// (encoding/json matches the members of a struct without regard to
+		// letter case: "AttriButes" is read as attributes too)
+		if len(path) < 2 || !strings.EqualFold(path[len(path)-2], "attributes") || !names[path[len(path)-1]] {
 			return
 		}
 
@@ -376,6 +378,17 @@ func runEntryPoints(schema *jsonapi.Schema, input []byte, target string) (violat
 		)
 
 		hr := httptest.NewRequest(method, target, bytes.NewReader(input))
+
+		// The request may announce an encoding of its body (chosen by the
+		// body's length, so that a saved input replays the same way): whether
+		// the library honours it or not, it answers with an error or a request.
+		if enc := []string{"gzip", "", "identity", " GZip ", "deflate", "", "br"}[len(input)%7]; enc != "" {
+			hr.Header.Set("Content-Encoding", enc)
+		}
+
+		if len(input)%3 == 1 {
+			hr.Header.Set("Content-Type", "application/vnd.api+json")
+		}
 
 		if p := oracle.Try(func() { req, err = jsonapi.NewRequest(hr, schema) }); p != nil {
 			onPanic("NewRequest "+method, p)
@@ -693,6 +706,8 @@ func FuzzC05(f *testing.F) {
 		`[{"id":"1","type":"a"},{"id":"2","type":"b"}]`,
 		`{"errors":[{"id":"1","status":"400","links":{"about":"x"},"source":{"pointer":"/"},"meta":{}}]}`,
 		`[null]`, `null`, `{"data":null,"included":[null]}`, `{"id":"1","type":"nope"}`,
+		// (members in another letter case are the same members for encoding/json)
+		`{"Data":{"ID":"1","Type":"a","AttriButes":{"bytes0":" 002","string0":"x"},"RELATIONSHIPS":{"one":{"DATA":null}}}}`,
 	} {
 		f.Add([]byte(s))
 	}
